@@ -60,8 +60,13 @@ class Parameter:
 
     @value.setter
     def value(self, val):
+        previous = self._value
         self._value = val
-        self.validate()
+        try:
+            self.validate()
+        except Exception:
+            self._value = previous
+            raise
 
     def validate(self):
         """Validates data against the pool of enforcers."""
